@@ -87,10 +87,21 @@ POPS = {
 KINKED = {"relu", "max"}
 
 
+LATE_MEMBERS = []          # tensors appended to a caller's list *after* the op was recorded: no backward call may give them a gradient
+
+
+def _late_member(L, lst, like):
+    extra = L.Tensor(np.ones(like.shape, dtype=like.data.dtype), requires_grad=True)
+    lst.append(extra)
+    LATE_MEMBERS.append(extra)
+    del LATE_MEMBERS[:-64]
+
+
 def _concat_then_mutate(L, t, a):
     lst = [t[0], t[1]]
     out = L.sg.concat(lst, a["dim"])
     lst.reverse(); lst.pop()           # the caller goes on using its list (sliding windows, buffers)
+    _late_member(L, lst, t[0])
     return out
 
 
@@ -118,6 +129,7 @@ def _stack_then_mutate(L, t, a):
     lst = [t[0], t[1]]
     out = L.sg.stack(lst, a["dim"])
     lst.clear()                        # the micro-batch idiom: total = stack(losses).sum(); losses.clear(); ...; total.backward()
+    _late_member(L, lst, t[0])         # ... and the list is filled again for the next round
     return out
 
 
